@@ -786,6 +786,13 @@ class Type3TagEmulation(nfc.tag.TagEmulation):
 
     def process_command(self, cmd):
         log.debug("cmd: %s", hexlify(cmd).decode() if cmd else str(cmd))
+        try:
+            return self._process_command(cmd)
+        except IndexError:
+            log.error("tt3 command too short for its content")
+            return None
+
+    def _process_command(self, cmd):
         if len(cmd) != cmd[0]:
             log.error("tt3 command length error")
             return None
